@@ -27,7 +27,7 @@ use std::time::Duration;
 pub static INFO: PropInfo = PropInfo {
     id: "C17",
     level: "fault_enumeration",
-    rule: "two kinds of executions. (a) TAMPER (enumerated; exhaustive=true refers to this: for every sample datagram ALL single-bit positions and ALL truncation lengths 0..len-1 are presented): per run one genuine sample of every datagram kind (request, challenge, response, keep-alive both directions, payload both directions with a seeded length 0..1300, denied, disconnect both directions) is captured from a live handshake/session and every modification is presented to the endpoint in exactly the state in which the genuine datagram is accepted (proved afterwards by presenting the genuine one and seeing its effect); each must produce no result and leave the observable snapshot identical (server: client ids, addresses, user data, time since last packet, half-open set; client: state, reason, time since last packet); for the unsealed request the prefix byte's unused high nibble is excluded. Every sealed sample must also fail to open under another key and under another protocol id (crate codec) and a request must be ignored by servers with another private key / protocol id. Token: every single-bit flip of the 1024 sealed bytes, the protocol id and the expiry of a serialized ConnectToken goes through ConnectToken::read -> NetcodeClient::new -> update -> server.process_packet and through the private-token decoder and must yield neither a decoded token nor a reply nor a half-open entry. (b) NONCE TABLE: honest multi-client histories against one server (1-3 slots, 3-7 clients, seeded loss and duplication so that requests are retried and re-challenged, denials on a full server, keep-alives, payloads both ways, disconnects by either side, reconnects with fresh tokens, fail-over to a second server address, tokens listing two addresses of the same server so that a client denied or unanswered at the first is admitted at the second with the same token - the server side of a token stops being recorded once the server opens a second session for it): every datagram returned by any NetcodeServer / NetcodeClient call is attributed to a key by opening it with the token keys the harness minted, and entered as (key, sequence from the prefix) -> bytes; two different byte strings under one (key, sequence) refute the property, as do two different challenge blobs with one token_sequence; every recorded datagram is also opened with an independent ChaCha20-Poly1305 (netcode 1.02 framing: nonce = 4 zero bytes || LE sequence) to establish the nonce it was REALLY sealed with (normally that of its announced sequence, otherwise searched among truncations of it and the other sequences of that key) and entered in a second ledger keyed by (key bytes, real nonce) - both directions and all sessions share it, so equal keys in two roles are a reuse; a third of the parties hold a token of the library's own generator; a party may give up while it is still requesting or responding (NetcodeClient::disconnect during the handshake seals a Disconnect under the key of the responses already sent). One evaluation = one presented modification (a) or one recorded datagram (b); non-trivial = oracle evaluated on it; distinct = (sample hash, modification) resp. (history seed, datagram hash).",
+    rule: "two kinds of executions. (a) TAMPER (enumerated; exhaustive=true refers to this: for every sample datagram ALL single-bit positions and ALL truncation lengths 0..len-1 are presented): per run one genuine sample of every datagram kind (request, challenge, response, keep-alive both directions, payload both directions with a seeded length 0..1300, denied, disconnect both directions) is captured from a live handshake/session and every modification is presented to the endpoint in exactly the state in which the genuine datagram is accepted (proved afterwards by presenting the genuine one and seeing its effect); each must produce no result and leave the observable snapshot identical (server: client ids, addresses, user data, time since last packet, half-open set; client: state, reason, time since last packet); for the unsealed request the prefix byte's unused high nibble is excluded. Every sealed sample must also fail to open under another key and under another protocol id (crate codec) and a request must be ignored by servers with another private key / protocol id. Token: every single-bit flip of the 1024 sealed bytes, the protocol id and the expiry of a serialized ConnectToken goes through ConnectToken::read -> NetcodeClient::new -> update -> server.process_packet and through the private-token decoder and must yield neither a decoded token nor a reply nor a half-open entry. (b) NONCE TABLE: honest multi-client histories against one server (1-3 slots, 3-7 clients, seeded loss and duplication so that requests are retried and re-challenged, denials on a full server, keep-alives, payloads both ways, disconnects by either side, reconnects with fresh tokens, fail-over to a second server address, tokens listing two addresses of the same server so that a client denied or unanswered at the first is admitted at the second with the same token - the server side of a token stops being recorded once the server opens a second session for it): every datagram returned by any NetcodeServer / NetcodeClient call is attributed to a key by opening it with the token keys the harness minted, and entered as (key, sequence from the prefix) -> bytes; two different byte strings under one (key, sequence) refute the property, as do two different challenge blobs with one token_sequence; every recorded datagram is also opened with an independent ChaCha20-Poly1305 (netcode 1.02 framing: nonce = 4 zero bytes || LE sequence) to establish the nonce it was REALLY sealed with (normally that of its announced sequence, otherwise searched among truncations of it and the other sequences of that key) and entered in a second ledger keyed by (key bytes, real nonce) - both directions and all sessions share it, so equal keys in two roles are a reuse; a third of the parties hold a token of the library's own generator; a party may give up while it is still requesting or responding (NetcodeClient::disconnect during the handshake seals a Disconnect under the key of the responses already sent). In (a) the server's challenge token is treated as sealed data of its own: echoed in a response that is correctly sealed under the session key, with one of its 2400 bits flipped (all bits of its first 8 and last 40 bytes, 120 sampled others) or under a neighbouring token sequence, it must not be accepted. One evaluation = one presented modification (a) or one recorded datagram (b); non-trivial = oracle evaluated on it; distinct = (sample hash, modification) resp. (history seed, datagram hash).",
     assumptions: &[
         "ChaCha20-Poly1305 / XChaCha20-Poly1305 themselves are not under test; the nonce is assumed to be the sequence number announced in the prefix (that it really is bound is what the bit flips of the sequence bytes test)",
         "one connect token = one connection attempt and the session that follows; reconnects use fresh tokens (reuse of a token for a second session is outside the statement)",
@@ -414,6 +414,49 @@ fn tamper_run(ctx: &Ctx, out: &mut Outcome, run_seed: u64, r: &mut Rng) {
     a.process(&chal_a);
     let resp_a = setup!(cli_emit(&mut a), "A response");
     accepted!(resp_a.first().map(|b| b & 0xF) == Some(3), "challenge");
+
+    // 2a. the challenge token itself is sealed data (by the server, under its challenge key): echoed in a response that is
+    //     correctly sealed under the session key, with one bit of the 300-byte token (or its sequence) changed, it
+    //     must not be accepted - every one of its 2400 bit positions is authenticated, padding included
+    if let Some((rseq, OPacket::Response { token_sequence, token_data })) = nsim::open(&resp_a, protocol, Some(&a_c2s)) {
+        let mut positions: Vec<usize> = (0..2400).filter(|b| *b >= 2400 - 8 * 40 || *b < 64).collect();
+        for _ in 0..120 {
+            positions.push(r.usize_below(2400));
+        }
+        for bit in positions {
+            let mut td = token_data.clone();
+            td[bit / 8] ^= 1 << (bit % 8);
+            let d = super::netproto_util::sealed(&OPacket::Response { token_sequence, token_data: td }, protocol, rseq, &a_c2s);
+            let res = srv.process(a_addr, &d);
+            out.count("tamper.challenge_token_bit_flips_in_resealed_response");
+            out.eval(mix(&[0x1c, run_seed, bit as u64]), true);
+            if matches!(res, SResult::Connected { .. }) || res.outgoing().is_some() || srv.s.is_client_connected(1001) {
+                out.violation(
+                    ctx,
+                    "C17/tamper-accepted/challenge-token/bitflip/connected",
+                    "sealed data is tamper-evident: a modified sealed item is never accepted",
+                    format!("a response echoing the server's challenge token with bit {} of 2400 flipped (correctly sealed under the session key) was accepted: {}", bit, res.kind()),
+                    json!({"property": "C17", "engine": ctx.engine, "run_seed": format!("{:#x}", run_seed), "mode": "tamper", "kind": "challenge-token", "bit": bit}),
+                );
+                return;
+            }
+        }
+        for ts in [token_sequence.wrapping_add(1), token_sequence.wrapping_sub(1), token_sequence ^ (1 << 40)] {
+            let d = super::netproto_util::sealed(&OPacket::Response { token_sequence: ts, token_data: token_data.clone() }, protocol, rseq, &a_c2s);
+            let res = srv.process(a_addr, &d);
+            out.count("tamper.challenge_token_sequence_changed_in_resealed_response");
+            if matches!(res, SResult::Connected { .. }) || srv.s.is_client_connected(1001) {
+                out.violation(
+                    ctx,
+                    "C17/tamper-accepted/challenge-token/sequence/connected",
+                    "sealed data is tamper-evident: a modified sealed item is never accepted",
+                    format!("a response echoing the challenge token under token sequence {:#x} instead of {:#x} was accepted", ts, token_sequence),
+                    json!({"property": "C17", "engine": ctx.engine, "run_seed": format!("{:#x}", run_seed), "mode": "tamper", "kind": "challenge-token-sequence"}),
+                );
+                return;
+            }
+        }
+    }
 
     // 3. response -> server, from A's half-open address
     age(&mut srv, &mut []);
